@@ -3,7 +3,7 @@ From Vib Require Import Model.Base Model.Text Model.Corpus.
 Local Open Scope N_scope.
 
 Record c19case := {
-  c9_kind : N;                                   (* 0: generated corpus text, 1: MeCab-style output of the tokenizer *)
+  c9_kind : N;                                   (* 0: generated corpus text, 1: MeCab-style output of the tokenizer, 2: the text (as given here) with one byte that is not UTF-8 inserted *)
   c9_text : str;
   c9_parsed : result (list (list word));
   c9_written : result str;
@@ -15,6 +15,7 @@ Definition word_eqb (a b : word) : bool := str_eqb (fst a) (fst b) && str_eqb (s
 Definition exs_eqb := list_eqb (list_eqb word_eqb).
 
 Definition c19_corr (c : c19case) : bool :=
+  if (c9_kind c =? 2) then true else
   result_eqb exs_eqb (parse_corpus (c9_text c)) (c9_parsed c)
   && match c9_parsed c, c9_written c with
      | Ok exs, Ok w => str_eqb w (write_corpus exs)
@@ -46,6 +47,8 @@ Fixpoint spec_examples (ls : list str) (cur : list word) : list (list word) :=
   end.
 
 Definition c19_oracle (c : c19case) : bool :=
+  (* a stream that is not UTF-8 is an error, never an accepted (shorter) corpus, never a panic *)
+  if (c9_kind c =? 2) then match c9_parsed c with Err => true | _ => false end else
   let ls := lines (c9_text c) in
   let malformed := existsb (fun l => (line_kind l =? 2)) ls in
   match c9_parsed c with
